@@ -33,6 +33,14 @@ CHECKS = {
    "TLA+ generator Slots.tla (slot x payload x ending product) enumerated by TLC and every element, plus deep-nesting inputs, all short strings, repository examples and mutated documents, converted by the real library under all 256 configurations with a watchdog; abstract (configuration, api, outcome) events judged by the TLA+ acceptor TraceTotal.tla",
    "Every document of the TLC-enumerated product of 47 text-bearing slots x 200 (thorough: 1660) payloads of escaping/robustness atoms x 2 endings, ~280 (560) structured deep-nesting / unclosed-opener inputs up to 400 (12000) repetitions, every string of length <= 3 over a 22-symbol Markdown alphabet (incl. UTF-8 continuation and lead bytes), ~950 repository examples and 2500 (60000) mutated documents is run under all 256 built-in configurations, alternating Convert and Parse+Render: 8.7 million calls in the quick tier. Panics are recovered and attributed to the first goldmark frame; a call exceeding 20 s is re-run alone in a child process with 60 s. The space of all byte strings is only sampled beyond length 3, so the level is exploration; TLC contributes the structured enumeration and the acceptance of the call trace.",
    "TLC, Json; the watchdog's time limits; a never-failing bytes.Buffer destination", "DESIGN.md 5/C01"),
+ "C03": ("model_checking",
+   "TLA+ acceptor HtmlOut.tla (element stack, tag/attribute vocabulary, reference well-formedness, placeholder comment, XHTML well-formedness flag) evaluated by TLC on the token stream of every distinct safe-mode output; workload = the TLC-enumerated Slots.tla product under all 128 safe configurations plus repository and mutated documents",
+   "TLC enumerates the slot x payload x ending product (48 slots x 200 payloads x 2; thorough 1660 payloads) and every element is converted under all 128 safe configurations (2.9 million conversions quick); outputs are cut by the harness's strict tokenizer, deduplicated by abstract token structure, and TLC evaluates the statement's clauses on each distinct one (stack discipline for nesting, fixed tag and per-tag attribute vocabulary incl. data-*, no bad '&', only the placeholder comment; XHTML outputs must pass encoding/xml in strict mode when representable). Exhaustive over the enumerated product; mutated and repository documents add breadth.",
+   "TLC, Json/IOUtils; strict tokenizer; encoding/xml; vocabulary constants transcribed from the renderers", "DESIGN.md 3.10, 5/C03"),
+ "C04": ("model_checking",
+   "TLA+ generator UrlAttack.tla enumerated by TLC, every attack concretised and converted in safe mode; every emitted href/src decoded like a browser and classified by the WHATWG-front-end operator Class of HtmlOut.tla, evaluated by TLC",
+   "TLC enumerates 6 schemes x 4 letter-case patterns x 24 obfuscations (none, backslash, named/decimal/hex/padded references, percent, leading and embedded whitespace/control characters raw and as references, double encoding) x 3 positions x 17 constructs (inline, <...>, reference definitions full/collapsed/shortcut, images, autolinks, linkify, nested image in link, footnote, table, definition list, containers) = 29376 documents, each converted under 12 (thorough: 128) safe configurations; TLC classifies every decoded href/src. URL-slot documents of Slots.tla, repository examples and 3000 (80000) mutated documents seeded with scheme fragments go through the same acceptor. Exhaustive over the attack grammar.",
+   "TLC, Json/IOUtils; html.UnescapeString; browser modelled by the WHATWG scheme front end only", "DESIGN.md 3.10, 5/C04"),
 }
 
 NOT_YET = "check not built yet in this revision of /verif (see DESIGN.md section 5 for the planned TLA+ decision procedure)"
